@@ -16,7 +16,7 @@ RULE = ('engine histories (C01-C03 generator) on pty/fd transports driven from a
         'outcome the engine reached), attribute changes between calls, > 1024 descriptors with use_poll. Deliveries of the asyncio '
         'protocol are recorded through the public logfile_read attribute. '
         'An awaited call never reports TIMEOUT before its time is up (C14.early_timeout). '
-        'Ninth round: awaitables made before earlier operations and awaited later (scenario field prepare); C14.zero: an awaited call with timeout 0 must look at what the kernel holds readable when it begins, as the blocking call does; negative timeouts. Non-trivial: >= 1 awaited call that consumed a read; distinct by trace digest')
+        'Ninth round: awaitables made before earlier operations and awaited later (scenario field prepare); C14.zero: an awaited call with timeout 0 must look at what the kernel holds readable when it begins, as the blocking call does; negative timeouts. Tenth round: a second event loop on the same object (known finding D38), bytes that are not text in a strict encoding during an awaited call (C14.decode_error: the blocking call raises UnicodeDecodeError, so must the awaited one), epoch variation. Non-trivial: >= 1 awaited call that consumed a read; distinct by trace digest')
 
 COMP = dict(COMPONENTS)
 COMP['real'] = COMPONENTS['real'] + ['pexpect._async_w_await (expect_async, PatternWaiter)',
